@@ -215,6 +215,11 @@ type rewriter struct {
 func (r *rewriter) yield(pos token.Pos, kind string) ast.Stmt {
 	r.n++
 	site := fmt.Sprintf("auto:%s:%d:%s", r.file, r.fset.Position(pos).Line, kind)
+	if kind == "spawn" {
+		// the scheduler looks for an unannounced child after a site that
+		// starts with "spawn" (sites are cut to a fixed length: prefix)
+		site = fmt.Sprintf("spawn:auto:%s:%d", r.file, r.fset.Position(pos).Line)
+	}
 	return &ast.ExprStmt{X: &ast.CallExpr{Fun: ast.NewIdent("verifYield"), Args: []ast.Expr{&ast.BasicLit{Kind: token.STRING, Value: fmt.Sprintf("%q", site)}}}}
 }
 
